@@ -183,7 +183,8 @@ def pretty(p, style="prefix", default_shadows=True):
     out = []
     for ex in p.get("externs", []):
         out.append("extern fn %s(%s) -> %s\n" % (ex["n"], ", ".join("%s: %s" % (a, t) for a, t in zip(ex["params"], ex["ptys"])), ex["ret"]))
-    for st in p["structs"]:
+    late = set(p.get("late_structs", ()))          # structs with fields of union type are declared after the unions (the front end needs the order)
+    for st in [x for x in p["structs"] if x["n"] not in late]:
         out.append("%sstruct %s {\n%s\n}\n" % ("resource " if st.get("res") else "", st["n"],
                                                  ",\n".join("    %s: %s" % (f, t) for f, t in zip(st["fields"], st["ftys"]))))
     for en in p["enums"]:
@@ -193,6 +194,8 @@ def pretty(p, style="prefix", default_shadows=True):
         for v in un["variants"]:
             vs.append("    %s { %s }" % (v["n"], ", ".join("%s: %s" % (f, t) for f, t in zip(v["fields"], v["ftys"]))))
         out.append("union %s {\n%s\n}\n" % (un["n"], ",\n".join(vs)))
+    for st in [x for x in p["structs"] if x["n"] in late]:
+        out.append("struct %s {\n%s\n}\n" % (st["n"], ",\n".join("    %s: %s" % (f, t) for f, t in zip(st["fields"], st["ftys"]))))
     for g in p["globals"]:
         out.append("let %s%s: %s = %s\n" % ("mut " if g["m"] else "", g["n"], g["t"], pe(g["init"], style)))
     shadowed = {sh["fn"] for sh in p["shadows"]}
